@@ -22,7 +22,7 @@ REQUIRED = ["solve.ok"]
 ASSUMPTIONS = ["tol(.) = 1e-6*T_max(s) + eps per presentation (exact oracle); pairs whose T is unavailable contribute only flag and separated-state strategy comparisons",
                "strategy differences that consist only of exact ties whose reported floats round to different cells are attributed to the open C04 finding (tie-split-by-convergence), as are their downstream reward differences"]
 TIMEOUT = 1800
-TABLE = [("G-ACY", 250), ("G-CYC", 300), ("G-SLOW", 60), ("G-DEAD", 350), ("G-TIE", 100), ("G-TIEC", 100), ("G-LEX", 120), ("G-TINY", 40), ("G-TINYB", 100), ("G-INIT0F", 30)]
+TABLE = [("G-ACY", 250), ("G-CYC", 300), ("G-SLOW", 60), ("G-DEAD", 350), ("G-TIE", 100), ("G-TIEC", 100), ("G-LEX", 120), ("G-TINY", 40), ("G-TINYB", 100), ("G-INIT0F", 30), ("G-HALF", 40), ("G-LATE", 40), ("G-TINY", 60)]
 
 
 def make_transform(rng, gd, kind):
@@ -171,6 +171,45 @@ def compare(gd, gd2, tf, out, out2, prune, an):
             stats["strategy_states_skipped"] += 1
     if tie_split:
         return problems, known, stats          # downstream differences are attributed to the tie split
+    # the open sub-tolerance finding at inner states: a state whose true value is positive but within the convergence band is
+    # reported as exactly 0 in one presentation (the sweeps stopped before it was reached) and as a tiny positive number in the other.
+    # With pruning, conditioning then treats it as dead in one of them only: the two conditioned games are different games, and
+    # everything computed from them (rewards, final strategies, diagnostics) is attributed to that finding
+    if prune and T is not None:
+        zero_mismatch = [s for s in range(n) if (r1[3][s] == 0) != (r2[3][perm[s]] == 0)]
+        if zero_mismatch and all(0 < float(v[s]) <= analysis.DELTA * max(T[s], 1.0) + 1e-9 for s in zero_mismatch):
+            known.append({"state": zero_mismatch[0], "finding": "sub-tolerance-positive-value",
+                          "problem": "a state with a positive value below the convergence band is reported as exactly 0 in one presentation only; "
+                                     "the conditioned games differ",
+                          "g": r1[3][zero_mismatch[0]], "g2": r2[3][perm[zero_mismatch[0]]]})
+            # what the finding does NOT explain: a Player-1 state that is not an ancestor of any such state keeps its own transitions
+            # in both presentations (Player-1 states are never blanked), so its reward and final strategy must still agree
+            pred = [[] for _ in range(n)]
+            for a_, tr in enumerate(gd["transition_list"]):
+                for _, t in tr:
+                    pred[t].append(a_)
+            affected, stack = set(), list(zero_mismatch)
+            while stack:
+                x = stack.pop()
+                for a_ in pred[x]:
+                    if a_ not in affected:
+                        affected.add(a_)
+                        stack.append(a_)
+            try:
+                tall = float(an.tmax_solve)
+                rall = float(an.rmax_solve(True))
+            except OracleInconclusive:
+                return problems, known, stats
+            for s_ in range(n):
+                if gd["players"][s_] != P1 or s_ in affected:
+                    continue
+                stats["unaffected_p1_states_compared"] = stats.get("unaffected_p1_states_compared", 0) + 1
+                tol = 2 * (analysis.DELTA * max(tall, 1.0) + analysis.eps_fp(rall))
+                exp = _strat_expected(r1[0][s_], gd2["transition_list"][perm[s_]], ren)
+                if abs(r1[2][s_] - r2[2][perm[s_]]) > tol or (r1[0][s_] == []) != (r2[0][perm[s_]] == []):
+                    problems.append({"state": s_, "problem": "a Player-1 state that no sub-tolerance state hangs below reports different rewards / strategies in the two presentations",
+                                     "g": [r1[2][s_], r1[0][s_]], "g2": [r2[2][perm[s_]], r2[0][perm[s_]]], "expected_strategy": exp})
+            return problems, known, stats
     # rewards / final strategies / diagnostics: need the conditioned game
     try:
         cond = analysis.Conditioned(gd, r1, prune)
@@ -319,7 +358,14 @@ def decide(gd, idx, cls, tier, rng, tfs=None):
                     res["stats"]["pairs_execution_changed"] = res["stats"].get("pairs_execution_changed", 0) + 1
             # the open C06 finding (positive value below tolerance) can make the flag presentation-dependent
             for p in pr:
-                if p["problem"].startswith("one presentation is declared") and prune and 0 in an.W and \
+                # the open sub-tolerance finding explains a presentation-dependent 'no solution' only if, in the presentation that
+                # raised it, the iteration really stopped with state 0 still at EXACTLY 0 (visible in its unpruned run)
+                nosol_side = gd if base[prune].status == "nosol" else gd2
+                still_zero = False
+                if p["problem"].startswith("one presentation is declared") and prune:
+                    o_np = monitors.observed_solve(games.to_solver(nosol_side), False, limit)
+                    still_zero = o_np.status == "ok" and o_np.result[3][0] == 0
+                if p["problem"].startswith("one presentation is declared") and prune and 0 in an.W and still_zero and \
                         float(an.reach["v"][0]) <= analysis.DELTA * max(float(an.tmax[0]), 1.0) + 1e-9:
                     kn = kn + [dict(p, finding="sub-tolerance-positive-value")]
                     pr = [q for q in pr if q is not p]
